@@ -105,8 +105,27 @@ FAILURE_TYPES = [SameError, SameError, SameError, usim.StreamClosed, usim.Resour
                  usim.IntervalExceeded]
 
 
-def failure(name, number):
-    exc = FAILURE_TYPES[number % len(FAILURE_TYPES)](name)
+class Invariant(AssertionError):
+    """subclasses of the exceptions that scopes pass on as themselves, not inside Concurrent"""
+
+
+class Shutdown(SystemExit):
+    pass
+
+
+PRIVILEGED = (Invariant, Shutdown)
+#: collect() scenarios also fail with those (position 2 and 5 of every 8 activities)
+COLLECT_FAILURE_TYPES = [SameError, usim.StreamClosed, Invariant, SameError,
+                         usim.ResourcesUnavailable, Shutdown, SameError, usim.IntervalExceeded]
+
+
+def failure_type(number, how):
+    types = COLLECT_FAILURE_TYPES if how == 'collect' else FAILURE_TYPES
+    return types[number % len(types)]
+
+
+def failure(name, number, how='first'):
+    exc = failure_type(number, how)(name)
     exc.tag = name
     return exc
 
@@ -133,6 +152,10 @@ def build_for(case):
     def build(arena):
         checker = Checker(arena, spec)
 
+        # (privileged failure types only where no activity fails by a cancelled task as well)
+        flavour = 'collect' if spec['how'] == 'collect' and not any(
+            act['fail'] in ('join', 'cancelled') for act in spec['acts']) else 'first'
+
         def make_act(number, act):
             async def run():
                 name = 'act%d' % number
@@ -153,7 +176,7 @@ def build_for(case):
                         return await victims[number]
                     if act['fail']:
                         arena.log(name, 'raise')
-                        raise failure(name, number)
+                        raise failure(name, number, flavour)
                     arena.log(name, 'done')
                     return act['value']
                 except GeneratorExit:
@@ -209,6 +232,8 @@ def build_for(case):
                     except Concurrent as exc:
                         checker.result = ('concurrent', [getattr(child, 'tag', None) or str(child.args[0]) for child
                                                          in exc.children], time.now)
+                    except PRIVILEGED as exc:
+                        checker.result = ('privileged', [exc.tag], time.now)
                     except usim.TaskCancelled as exc:
                         checker.result = ('taskcancelled', [exc.subject is task for task
                                                             in victims.values()], time.now)
@@ -335,7 +360,24 @@ def check(sess, arena, checker, outcome, plan):
                 checker.stats['collect_failures'] += 1
                 first_fail = min(acts[i]['d1'] + acts[i]['d2'] for i in failing) + t0
                 want = ['act%d' % number for number, when, failed in order if failed]
-                if result[0] != 'concurrent':
+                fatal = [name for name in want
+                         if issubclass(failure_type(int(name[3:]), 'collect'), PRIVILEGED)]
+                assert not joins
+                if fatal:
+                    # AssertionError / SystemExit / KeyboardInterrupt (and their subclasses) of
+                    # an activity are passed on as themselves: the first of them
+                    checker.stats['collect_privileged_failures'] = checker.stats.get(
+                        'collect_privileged_failures', 0) + 1
+                    if result[0] != 'privileged' or result[1] != fatal[:1]:
+                        checker.violation('collect-wrong-failures',
+                                          'activities %s fail, %s with a subclass of '
+                                          'AssertionError / SystemExit: collect raised %r' % (
+                                              want, fatal, result[:2]))
+                    elif result[2] != first_fail:
+                        checker.violation('collect-failure-time',
+                                          'collect failed at %r, first failure at %r' % (
+                                              result[2], first_fail))
+                elif result[0] != 'concurrent':
                     checker.violation('collect-failure-not-raised',
                                       'activities %s fail but collect returned %r' % (
                                           failing, result[1]))
